@@ -625,11 +625,18 @@ func (m *Model) Do(c prog.Concrete) prog.Expect {
 		if len(nums) == 0 {
 			m.DontCareHits["complete-without-parts"]++
 		}
-		switch c.Manifest {
+		manifest := c.Manifest
+		if len(nums) == 0 && (manifest == "wrongEtag" || manifest == "wrongOrder") {
+			manifest = "" // distorting an empty manifest leaves it empty = no manifest
+		}
+		switch manifest {
 		case "wrongEtag", "missing", "extra":
 			return failE(prog.EInvalidPart)
 		case "wrongOrder":
 			return failE(prog.EInvalidPartOrder, prog.EInvalidPart)
+		}
+		if prog.SuppliedIsBad(c.Supplied) && prog.CompleteChecksumInput(c) != nil {
+			return failE(prog.EBadDigest, prog.EPrecondition)
 		}
 		if e := m.checkWriteConditions(b, c); e != nil {
 			return *e
@@ -741,6 +748,35 @@ func (m *Model) Do(c prog.Concrete) prog.Expect {
 		return r
 	}
 	return failE(prog.EOther)
+}
+
+// PreviewComplete returns the ETag and checksums a CompleteMultipartUpload of
+// the upload would produce now (ok=false if the upload is unknown or not completable).
+func (m *Model) PreviewComplete(bucket, uploadID string) (etag string, sums map[string]string, ok bool) {
+	b := m.Buckets[bucket]
+	if b == nil {
+		return "", nil, false
+	}
+	_, u := b.findUpload(uploadID)
+	if u == nil {
+		return "", nil, false
+	}
+	var nums []int
+	for n := range u.Parts {
+		nums = append(nums, n)
+	}
+	sort.Ints(nums)
+	v := &Version{Multipart: true, CkType: u.CkType}
+	for i, n := range nums {
+		if n != i+1 {
+			return "", nil, false
+		}
+		v.Parts = append(v.Parts, u.Parts[n])
+	}
+	if len(nums) == 0 {
+		return "", nil, false
+	}
+	return v.ETag(), v.Checksums(), true
 }
 
 // ListKeys returns the keys whose current version is an object, in byte order.
